@@ -57,11 +57,15 @@ def eval_expr(expr, env):
     except Exception as ex:
         raise TranslateError('cannot evaluate %r: %s' % (expr, ex))
 
-def parse_type(t):
+def parse_type(t, env=None):
     t = t.strip()
     m = re.fullmatch(r'\[\s*(.+?)\s*;\s*(\d+)\s*\]', t)
     if m:
-        return {'arr': parse_type(m.group(1)), 'n': int(m.group(2))}
+        return {'arr': parse_type(m.group(1), env), 'n': int(m.group(2))}
+    # the length may be a named constant of the same file (`[u32; N_UNUSED]`): read it from the translated constants
+    m = re.fullmatch(r'\[\s*(.+?)\s*;\s*(?:\w+::)*([A-Z]\w*)(?:\s+as\s+usize)?\s*\]', t)
+    if m and env is not None and isinstance(env.get(m.group(2)), int):
+        return {'arr': parse_type(m.group(1), env), 'n': env[m.group(2)]}
     if t in INT_TYPES:
         w, s = INT_TYPES[t]
         return {'int': w, 'signed': s}
@@ -69,10 +73,22 @@ def parse_type(t):
         return {'named': t}
     raise TranslateError('unsupported field type %r' % t)
 
-def parse_structs(src):
+def parse_structs(src, env=None, lenient=False):
+    """strict: every `#[repr(C)] pub struct` with `pub` integer / array / named fields; a `pub struct` that implements
+    ByteValued (i.e. is read from / written to the wire) without `#[repr(C)]` is an error (its layout is unspecified).
+    lenient (names-only fallback, used to keep the rustc probes running on source the strict reader refuses): every
+    `pub struct` with a braced body; a field whose type cannot be read is kept as {'opaque': text} (the probe still
+    reports its offset and size), a field that is not `pub` is kept with 'private' (it cannot be probed from outside)."""
     out = []
-    for m in re.finditer(r'#\[repr\(C\)\]\s*(?:#\[[^\]]*\]\s*)*pub\s+struct\s+(\w+)\s*\{', src):
-        name = m.group(1)
+    wire = set(re.findall(r'unsafe\s+impl\s+ByteValued\s+for\s+(\w+)', src))
+    if lenient:
+        rx = r'((?:#\[[^\]]*\]\s*)*)pub\s+struct\s+(\w+)\s*\{'
+    else:
+        rx = r'(#\[repr\(C\)\]\s*(?:#\[[^\]]*\]\s*)*)pub\s+struct\s+(\w+)\s*\{'
+    seen = set()
+    for m in re.finditer(rx, src):
+        name = m.group(2)
+        if lenient and name not in wire and 'repr(C' not in m.group(1): continue
         end = match_brace(src, m.end() - 1)
         body = src[m.end():end - 1]
         fields = []
@@ -81,12 +97,28 @@ def parse_structs(src):
             if not part: continue
             # array types contain ';' not ',' so a plain comma split is fine
             fm = re.fullmatch(r'(?:#\[[^\]]*\]\s*)*pub\s+(\w+)\s*:\s*(.+)', part, flags=re.S)
-            if not fm: raise TranslateError('struct %s: cannot parse field %r' % (name, part))
-            fields.append([fm.group(1), parse_type(fm.group(2))])
-        out.append([name, fields])
+            if not fm:
+                if not lenient: raise TranslateError('struct %s: cannot parse field %r' % (name, part))
+                fm = re.fullmatch(r'(?:#\[[^\]]*\]\s*)*(?:pub\s*\([^)]*\)\s*)?(\w+)\s*:\s*(.+)', part, flags=re.S)
+                if not fm: raise TranslateError('struct %s: cannot parse field %r' % (name, part))
+                try: ty = parse_type(fm.group(2), env)
+                except TranslateError: ty = {'opaque': fm.group(2).strip()}
+                ty = dict(ty, private=True)
+                fields.append([fm.group(1), ty]); continue
+            try: ty = parse_type(fm.group(2), env)
+            except TranslateError:
+                if not lenient: raise
+                ty = {'opaque': fm.group(2).strip()}
+            fields.append([fm.group(1), ty])
+        out.append([name, fields]); seen.add(name)
+    if not lenient:
+        for mm in re.finditer(r'pub\s+struct\s+(\w+)\s*\{', src):
+            if mm.group(1) in wire and mm.group(1) not in seen:
+                raise TranslateError('struct %s implements ByteValued but is not declared `#[repr(C)] pub struct` '
+                                     '(layout unspecified / attribute form not understood)' % mm.group(1))
     return out
 
-def parse_consts(src):
+def parse_consts(src, lenient=False):
     env = {}
     order = []
     depth0 = []
@@ -101,11 +133,15 @@ def parse_consts(src):
     flat = ''.join(cur)
     for m in re.finditer(r'(pub\s+)?const\s+(\w+)\s*:\s*(\w+)\s*=\s*([^;]+);', flat):
         name, ty, expr = m.group(2), m.group(3), m.group(4)
-        env[name] = eval_expr(expr, env)
-        order.append([name, ty, env[name], bool(m.group(1))])
+        try: v = eval_expr(expr, env)
+        except TranslateError:
+            if not lenient: raise
+            v = None            # names-only fallback: the value is whatever rustc reports for the name
+        if v is not None: env[name] = v
+        order.append([name, ty, v, bool(m.group(1))])
     return order, env
 
-def parse_bitflags(src, env):
+def parse_bitflags(src, env, lenient=False):
     out = []
     for m in re.finditer(r'bitflags!\s*\{', src):
         end = match_brace(src, m.end() - 1)
@@ -115,23 +151,41 @@ def parse_bitflags(src, env):
         iend = match_brace(body, sm.end() - 1)
         inner = body[sm.end():iend - 1]
         members = []
+        menv = dict(env)
         for cm in re.finditer(r'const\s+(\w+)\s*=\s*([^;]+);', inner):
-            members.append([cm.group(1), eval_expr(cm.group(2), env)])
+            # a member may be composed of earlier members: `Self::A.bits | Self::B.bits` / `Self::A.bits()`
+            expr = re.sub(r'\bSelf::(\w+)\.bits(?:\(\))?', r'__m_\1', cm.group(2))
+            try: v = eval_expr(expr, menv)
+            except TranslateError:
+                if not lenient: raise
+                v = None
+            if v is not None: menv['__m_' + cm.group(1)] = v
+            members.append([cm.group(1), v])
         out.append([sm.group(1), sm.group(2), members])
     return out
 
-def parse_enums(src):
+def parse_enums(src, env=None, lenient=False):
+    """`#[repr(u32)] pub enum E { V = expr, W, ... }`: an explicit discriminant may be any constant expression the
+    constant reader understands; a variant without one continues from its predecessor (0 for the first), as in Rust."""
     out = []
     for m in re.finditer(r'#\[repr\(u32\)\]\s*(?:#\[[^\]]*\]\s*)*pub\s+enum\s+(\w+)\s*\{', src):
         end = match_brace(src, m.end() - 1)
         body = src[m.end():end - 1]
-        vs = []
+        vs = []; nxt = 0
         for part in body.split(','):
-            part = part.strip()
+            part = re.sub(r'#\[[^\]]*\]', '', part).strip()
             if not part: continue
-            vm = re.fullmatch(r'(\w+)\s*=\s*([\w_]+)', part)
-            if not vm: raise TranslateError('enum %s: cannot parse %r' % (m.group(1), part))
-            vs.append([vm.group(1), eval_expr(vm.group(2), {})])
+            vm = re.fullmatch(r'(\w+)\s*(?:=\s*(.+))?', part, flags=re.S)
+            if not vm:
+                if lenient: continue
+                raise TranslateError('enum %s: cannot parse %r' % (m.group(1), part))
+            if vm.group(2) is None: v = nxt
+            else:
+                try: v = eval_expr(vm.group(2), env or {})
+                except TranslateError:
+                    if not lenient: raise
+                    v = None
+            vs.append([vm.group(1), v]); nxt = None if v is None else v + 1
         out.append([m.group(1), vs])
     return out
 
@@ -288,15 +342,78 @@ def struct_field_types(structs, name):
             return d
     raise TranslateError('struct %s not found' % name)
 
-def translate(repo='/repo', lenient_conv=False):
+ENTRY_SRC = {'inode': 'u64', 'generation': 'u64', 'attr_flags': 'u32',
+             'entry_timeout.secs': 'u64', 'entry_timeout.nsec': 'u32', 'attr_timeout.secs': 'u64', 'attr_timeout.nsec': 'u32'}
+
+def parse_entry_out(src, attr_rows, attr_t):
+    """`impl From<Entry> for fuse::EntryOut` (src/api/filesystem/mod.rs): a struct literal whose fields are
+    `entry.f`, `entry.t.as_secs()`, `entry.t.subsec_nanos()` and `attr: Attr::with_flags(entry.attr, entry.attr_flags)`.
+    Rows are named by leaf path (`attr.ino` <- `attr.st_ino`)."""
+    H = r'impl\s+From<Entry>\s+for\s+(?:fuse::)?EntryOut\s*\{\s*fn\s+from'
+    body = fn_body(src, H); var = fn_vars(src, H)[0]
+    m = re.search(r'\b(?:fuse::)?EntryOut\s*\{', body)
+    if not m: raise TranslateError('literal EntryOut {..} not found')
+    if body[:m.start()].strip(): raise TranslateError('From<Entry> for EntryOut: statements before the literal: %r' % body[:m.start()].strip()[:80])
+    end = match_brace(body, m.end() - 1)
+    if body[end:].strip(): raise TranslateError('From<Entry> for EntryOut: code after the literal')
+    inner = body[m.end():end - 1]
+    dst_t = {'nodeid': 'u64', 'generation': 'u64', 'entry_valid': 'u64', 'attr_valid': 'u64', 'entry_valid_nsec': 'u32', 'attr_valid_nsec': 'u32'}
+    rows = []
+    # split on commas outside parentheses
+    parts = []; d = 0; cur = ''
+    for ch in inner:
+        if ch == '(': d += 1
+        elif ch == ')': d -= 1
+        if ch == ',' and d == 0: parts.append(cur); cur = ''
+        else: cur += ch
+    parts.append(cur)
+    for part in parts:
+        part = part.strip()
+        if not part: continue
+        fm = re.fullmatch(r'(\w+)\s*:\s*(.+)', part, flags=re.S)
+        if not fm: raise TranslateError('cannot parse EntryOut field %r' % part)
+        dst, rhs = fm.group(1), fm.group(2).strip()
+        if dst == 'attr':
+            am = re.fullmatch(r'(?:fuse::)?Attr::with_flags\(\s*' + var + r'\.attr\s*,\s*' + var + r'\.(\w+)\s*\)', rhs)
+            if not am: raise TranslateError('unsupported EntryOut.attr expression %r' % rhs)
+            for d_, s_, par, chain in attr_rows:
+                if s_ is None: rows.append(['attr.' + d_, am.group(1), None, [ENTRY_SRC.get(am.group(1), 'u32'), attr_t[d_]]])
+                else: rows.append(['attr.' + d_, 'attr.' + s_, None, chain])
+            continue
+        rm = re.fullmatch(var + r'\.(\w+)(?:\.(as_secs|subsec_nanos)\(\))?((?:\s+as\s+\w+)*)', rhs)
+        if not rm: raise TranslateError('unsupported EntryOut rhs %r' % rhs)
+        srcf = rm.group(1) + ({'as_secs': '.secs', 'subsec_nanos': '.nsec'}.get(rm.group(2), '') if rm.group(2) else '')
+        if srcf not in ENTRY_SRC: raise TranslateError('unknown Entry source %r' % srcf)
+        if dst not in dst_t: raise TranslateError('unknown EntryOut field %r' % dst)
+        casts = [norm_ty(c) for c in re.findall(r'as\s+(\w+)', rm.group(3))]
+        rows.append([dst, srcf, None, [ENTRY_SRC[srcf]] + casts + [dst_t[dst]]])
+    return rows
+
+def list_from_impls(*srcs):
+    """every `impl From<A> for B` of the ABI files: the check requires each to be a conversion it probes"""
+    out = []
+    for s in srcs:
+        out += ['%s->%s' % (a.replace('fuse::', '').replace('&', ''), b.replace('fuse::', ''))
+                for a, b in re.findall(r'impl\s+(?:<[^>]*>\s*)?From<\s*([^>]+?)\s*>\s+for\s+([\w:]+)', s)]
+    return sorted(out)
+
+def translate(repo='/repo', lenient_conv=False, lenient_names=False):
+    """lenient_conv: keep going when a conversion body / the opcode table cannot be read (the rest is translated strictly).
+    lenient_names: additionally keep going on struct fields, constant / flag / discriminant expressions the reader does
+    not understand: such an item is kept by NAME with value None ({'opaque': ..} type) so that the rustc probe can still
+    report what the compiler makes of it.  Only props/c13.py asks for this, and only after the strict run failed."""
     p1 = os.path.join(repo, 'src/abi/fuse_abi_linux.rs')
     p2 = os.path.join(repo, 'src/abi/virtio_fs.rs')
+    p3 = os.path.join(repo, 'src/api/filesystem/mod.rs')
     s1 = cut_tests(strip_comments(open(p1).read()))
     s2 = cut_tests(strip_comments(open(p2).read()))
-    structs = parse_structs(s1) + parse_structs(s2)
-    consts, env = parse_consts(s1)
-    bitflags = parse_bitflags(s1, env) + parse_bitflags(s2, {})
-    enums = parse_enums(s1)
+    s3 = cut_tests(strip_comments(open(p3).read()))
+    ln = lenient_names
+    if ln: lenient_conv = True
+    consts, env = parse_consts(s1, lenient=ln)
+    structs = parse_structs(s1, env, lenient=ln) + parse_structs(s2, env, lenient=ln)
+    bitflags = parse_bitflags(s1, env, lenient=ln) + parse_bitflags(s2, {}, lenient=ln)
+    enums = parse_enums(s1, env, lenient=ln)
     opcode_error = None
     try:
         arms, default = parse_opcode_from(s1)
@@ -305,9 +422,14 @@ def translate(repo='/repo', lenient_conv=False):
         # the kernel's opcode table) can still run and name a concrete failing opcode number
         if not lenient_conv: raise
         arms, default, opcode_error = [], None, str(ex)
-    attr_t = struct_field_types(structs, 'Attr')
-    kst_t = struct_field_types(structs, 'Kstatfs')
-    set_t = struct_field_types(structs, 'SetattrIn')
+    conv = {}; conv_errors = {}
+    try:
+        attr_t = struct_field_types(structs, 'Attr')
+        kst_t = struct_field_types(structs, 'Kstatfs')
+        set_t = struct_field_types(structs, 'SetattrIn')
+    except TranslateError as ex:
+        if not ln: raise
+        attr_t = kst_t = set_t = None; conv_errors['types'] = str(ex)
     H1 = r'pub\s+fn\s+with_flags\s*\('; H2 = r'impl\s+From<Attr>\s+for\s+stat64\s*\{\s*fn\s+from'
     H3 = r'impl\s+From<statvfs64>\s+for\s+Kstatfs\s*\{\s*fn\s+from'; H4 = r'impl\s+From<SetattrIn>\s+for\s+stat64\s*\{\s*fn\s+from'
     conv_specs = [
@@ -315,17 +437,32 @@ def translate(repo='/repo', lenient_conv=False):
         ('stat_of_attr', lambda: parse_conv_assign(fn_body(s1, H2), fn_vars(s1, H2)[1] or 'out', fn_vars(s1, H2)[0], STAT64, attr_t)),
         ('kstatfs_of_statvfs', lambda: parse_conv_literal(fn_body(s1, H3), 'Kstatfs', fn_vars(s1, H3)[0], kst_t, STATVFS64)),
         ('stat_of_setattr', lambda: parse_conv_assign(fn_body(s1, H4), fn_vars(s1, H4)[1] or 'out', fn_vars(s1, H4)[0], STAT64, set_t)),
+        # the twins: From<stat64> for Attr (GETATTR/SETATTR replies) and From<Entry> for EntryOut (LOOKUP/CREATE/... replies)
+        ('attr_from_stat', lambda: parse_attr_from_stat_typed(s1, conv['attr_of_stat'], attr_t)),
+        ('entry_out', lambda: parse_entry_out(s3, conv['attr_of_stat'], attr_t)),
     ]
-    conv = {}; conv_errors = {}
     for cname, thunk in conv_specs:
+        if attr_t is None: break
         try: conv[cname] = thunk()
-        except TranslateError as ex:
+        except (TranslateError, KeyError) as ex:
             # lenient mode (used only to search for a concrete failing input after the strict translation failed):
             # everything else is still translated so that the probes on the real conversions can run
-            if not lenient_conv: raise
+            if not lenient_conv:
+                if isinstance(ex, KeyError): raise TranslateError('conversion %s: depends on an untranslated conversion %s' % (cname, ex))
+                raise
             conv_errors[cname] = str(ex)
     return {'structs': structs, 'consts': consts, 'bitflags': bitflags, 'enums': enums,
-            'opcode_from': {'arms': arms, 'default': default, 'error': opcode_error}, 'conv': conv, 'conv_errors': conv_errors}
+            'opcode_from': {'arms': arms, 'default': default, 'error': opcode_error}, 'conv': conv, 'conv_errors': conv_errors,
+            'from_impls': list_from_impls(s1, s2, s3)}
+
+def parse_attr_from_stat_typed(s1, attr_rows, attr_t):
+    H = r'impl\s+From<stat64>\s+for\s+Attr\s*\{\s*fn\s+from'
+    body = fn_body(s1, H); var = fn_vars(s1, H)[0]
+    if re.fullmatch(r'\s*(?:Attr|Self)::with_flags\(\s*' + var + r'\s*,\s*0\s*\)\s*', body):
+        return [r for r in attr_rows if r[1] is not None]
+    if re.search(r'\b(?:Attr|Self)\s*\{', body) and 'with_flags' not in body and not re.search(r'\blet\s+mut\b', body):
+        return parse_conv_literal(body, 'Attr', var, attr_t, STAT64)
+    raise TranslateError('From<stat64> for Attr is neither exactly `Attr::with_flags(%s, 0)` nor a plain struct literal' % var)
 
 # ---------------------------------------------------------------- Coq emission
 def coq_str(s): return '"%s"' % s
